@@ -100,6 +100,24 @@ CLAIMED = {
         note="Trusted: TLC, encoder. Recorded fields come from the public attributes of ValidationError. Quick: up to 2 "
              "invalid instances per universe schema + 1500 random schemas; thorough: 4 + 40000.",
         design="5 C06"),
+    "C07": dict(
+        technique="TLA+ Iterators module (generators with pending finally blocks over scripts of resolver events, scopes computed "
+                  "with the RFC 3986 Uri module); TLC model MC_Iter over all well-nested scripts x operation histories with "
+                  "negative controls; MC_IterScen executes measured scripts of concrete scenarios over every operation "
+                  "history and its behaviours are replayed on one real validator object",
+        text="Design level: TLC checks, for every well-nested script of resolver events and every history of start / advance / "
+             "close operations on iterators of one validator, that the scope stack is restored whenever no iterator is "
+             "suspended and that what an iterator produces is a prefix of its solo run; removing the finally blocks or "
+             "allowing re-entry makes TLC produce counterexamples (the invariants are not vacuous). Binding: the event "
+             "script of every (scenario, instance) is measured on a fresh validator through a tracing RefResolver "
+             "subclass and TLC first checks that the model's scope computation reproduces every reported scope and URL; "
+             "TLC then enumerates all histories of exhaust / is_valid / validate / take-2-then-close / take-2-then-drop / "
+             "direct resolve / handler toggle (fail -> ok), executes the model and exports the expected outputs; every "
+             "history is replayed on ONE real validator, comparing yielded errors, resolved URLs, the resolution scope "
+             "stack, and deep snapshots of instance, schema and store documents after every step.",
+        note="Re-entering a validator while one of its iterators is suspended is the documented hazard and is not claimed (the "
+             "replay never does it). URLs are compared modulo a bare trailing '#'.",
+        design="5 C07"),
     "C08": dict(
         technique="TLA+ JsonEq spec; TLC enumerates pair/array universes (MC_C08, MC_C08U) with equivalence/congruence laws, "
                   "exports replayed into enum/const/uniqueItems; random deep pairs trace-validated by TLC (Trace_C08)",
